@@ -34,7 +34,7 @@ struct Arena {
 };
 
 struct ConcRun {
-    static const int NKINDS = 36;
+    static const int NKINDS = 37;
     RunEnv& env; Rep& R; int view; const Plan& plan;
     Arena sh;                       // shared inputs, sealed read-only during the task phases
     // shared objects
@@ -194,6 +194,10 @@ struct ConcRun {
                    { InLib g; o1 = r.jv_wk_unmarshal(view, JV_OK_WK_CT, s.ct, ct_bad.data(), 0, 1); o2 = r.jv_wk_unmarshal(view, JV_OK_WK_SIG, s.sig, sig_bad.data(), 0, 1); o3 = r.jv_g1_unmarshal(view, s.g1a, g1_bad.data(), 0, 1); o4 = r.jv_g2_unmarshal(view, s.g2a, g2_bad.data(), 0, 1); o5 = r.jv_lq_unmarshal(view, JV_OK_LQ_PARAMS, s.lqparams2, lqp_bad.data(), 0, 1); }
                    d = strf("bad:%d%d%d%d%d", o1, o2, o3, o4, o5); break; }
         case 35: { int grp = (int) (a & 1), w = (int) ((a >> 1) & 1); { InLib g; r.jv_wnaf_table_mul(grp + 1, 4 + w, grp ? s.g2.p : s.g1.p, wtab[grp][w], sc, (int) (b & 1)); } uint8_t c[193]; if (grp) { r.jv_g2_canon(c, s.g2); d = sha_hex(c, 193, 12); } else { r.jv_g1_canon(c, s.g1); d = sha_hex(c, 97, 12); } break; }
+        case 36: { // serialising SHARED objects (several threads publish the same parameters / key / ciphertext): marshal is a read of its object - and of what the object points at
+            bool comp = (a & 1) != 0; size_t n1, n2, n3; { InLib g; n1 = r.jv_wk_get_marshalled_length(view, JV_OK_WK_PARAMS, wparams, comp); n2 = r.jv_wk_get_marshalled_length(view, JV_OK_WK_SK, wkey, comp); n3 = r.jv_wk_get_marshalled_length(view, JV_OK_WK_CT, wct, comp);
+              if (n1 + n2 + n3 + 1024 <= s.bytes.n) { r.jv_wk_marshal(view, JV_OK_WK_PARAMS, s.bytes.p, wparams, comp); r.jv_wk_marshal(view, JV_OK_WK_SK, s.bytes.p + n1, wkey, comp); r.jv_wk_marshal(view, JV_OK_WK_CT, s.bytes.p + n1 + n2, wct, comp); r.jv_lq_marshal(view, JV_OK_LQ_PARAMS, s.bytes.p + n1 + n2 + n3, lqparams, comp); } }
+            d = sha_hex(s.bytes.p, s.bytes.n, 12); break; }
         case 29: { { InLib g; r.jv_g2_random(view, s.g2, jv_rand_cb); } uint8_t c[193]; r.jv_g2_canon(c, s.g2); d = sha_hex(c, 193, 12); break; }
         }
         tl_stream = nullptr; tl_hash = nullptr;
